@@ -55,3 +55,11 @@ Theorem C20_known_shared_writers_refuted :
   exists direct indirect, In (v, direct, indirect) shared_writes /\ (direct <> [] \/ indirect <> []).
 Proof. exact known_shared_writers_refuted. Qed.
 Print Assumptions C20_known_shared_writers_refuted.
+
+(* the regenerated table has a row for every package-level variable of every loaded package *)
+Theorem C20_all_vars_classified :
+  (forall p vs v, In (p, vs) all_vars -> In v vs ->
+     exists direct indirect, In (v, direct, indirect) shared_writes) /\
+  List.length scope_vars = var_count /\ List.length all_vars = package_count /\ (0 < var_count)%nat.
+Proof. exact all_vars_classified. Qed.
+Print Assumptions C20_all_vars_classified.
